@@ -89,6 +89,7 @@ func checkC17(c *Check) {
 
 	// ---------- 2: no shared mutable package state ----------
 	checkNoSharedState(c, "2/no-shared-state", func(path string) bool { return !strings.Contains(path, "/cmd/") }, 15)
+	checkNoSharedBacking(c, "9/no-shared-backing")
 	// package-level mutable containers handed out: a returned value that aliases a package-level slice/map (covered for the filter export in C01)
 
 	// ---------- 3: tracer thread affinity ----------
@@ -405,7 +406,29 @@ func checkHostMutex(c *Check) {
 		nCallers++
 		c.Cond(okCallers, "5/env-mutex", "container.(host)"+h.Name()+":called-under-lock", p.Pos(h.Pos()), "only called with the mutex held", "this helper touches the transport without the mutex and is reachable from a method that does not hold it")
 	}
-	c.Expect("5/env-mutex", 10)
+	// the mutex that is locked is the environment's: no method or function of the module receives a lock-holding
+	// struct by value (it would lock a private copy and exclude nobody)
+	nLock, badLock, badLockPos := 0, "", ""
+	for _, fn := range p.AllFuncs() {
+		if !inModule(fn) || fn.Pkg == nil || strings.HasSuffix(fn.Pkg.Pkg.Path(), "_test") || fn.Synthetic != "" {
+			continue
+		}
+		for _, pr := range fn.Params {
+			if lk := lockInside(pr.Type(), 0); lk != "" {
+				nLock++
+				if badLock == "" {
+					badLock = fmt.Sprintf("%s receives %s (which contains %s) by value", funcName(fn), pr.Type().String(), lk)
+					badLockPos = p.Pos(fn.Pos())
+				}
+			}
+		}
+	}
+	if badLockPos == "" {
+		badLockPos = "-"
+	}
+	c.Cond(badLock == "", "5/env-mutex", "module:locks-not-copied", badLockPos, "no function receives a lock-holding value by copy",
+		badLock+": the copy's lock is a different lock, so calls that are meant to exclude each other (two Execve on one environment) run concurrently on the shared socket and take each other's replies")
+	c.Expect("5/env-mutex", 11)
 }
 
 // checkNoSharedState: no package-level variable of the selected packages is
@@ -451,4 +474,127 @@ func checkNoSharedState(c *Check, rule string, sel func(pkgPath string) bool, ex
 		}
 	}
 	c.Expect(rule, expect)
+}
+
+// lockInside: t holds (by value, not behind a pointer) a sync lock; returns its name.
+func lockInside(t types.Type, depth int) string {
+	if depth > 6 {
+		return ""
+	}
+	if n, ok := t.(*types.Named); ok && n.Obj().Pkg() != nil {
+		if n.Obj().Pkg().Path() == "sync" {
+			switch n.Obj().Name() {
+			case "Mutex", "RWMutex", "Once", "WaitGroup", "Cond", "Map", "Pool":
+				return "sync." + n.Obj().Name()
+			}
+		}
+	}
+	switch u := t.Underlying().(type) {
+	case *types.Struct:
+		for i := 0; i < u.NumFields(); i++ {
+			if l := lockInside(u.Field(i).Type(), depth+1); l != "" {
+				return l
+			}
+		}
+	case *types.Array:
+		return lockInside(u.Elem(), depth+1)
+	}
+	return ""
+}
+
+// hasRefInside: a value of type t carries a slice or map (directly or in a field), i.e. copying it shares storage.
+func hasRefInside(t types.Type, depth int) bool {
+	if depth > 4 {
+		return false
+	}
+	switch u := t.Underlying().(type) {
+	case *types.Slice, *types.Map:
+		return true
+	case *types.Pointer:
+		return hasRefInside(u.Elem(), depth+1)
+	case *types.Struct:
+		for i := 0; i < u.NumFields(); i++ {
+			if hasRefInside(u.Field(i).Type(), depth+1) {
+				return true
+			}
+		}
+	}
+	return false
+}
+
+// globalBacked: v is (a copy of, a field of, a slice of, or a pointer to a local copy of) a value read from a
+// package-level variable of the module.
+func globalBacked(v ssa.Value, depth int, seen map[ssa.Value]bool) *ssa.Global {
+	if depth > 10 || v == nil || seen[v] {
+		return nil
+	}
+	seen[v] = true
+	switch x := v.(type) {
+	case *ssa.Global:
+		if x.Pkg != nil && strings.HasPrefix(x.Pkg.Pkg.Path(), repoModule) {
+			return x
+		}
+	case *ssa.UnOp:
+		return globalBacked(x.X, depth+1, seen)
+	case *ssa.FieldAddr:
+		return globalBacked(x.X, depth+1, seen)
+	case *ssa.Field:
+		return globalBacked(x.X, depth+1, seen)
+	case *ssa.Slice:
+		return globalBacked(x.X, depth+1, seen)
+	case *ssa.ChangeType:
+		return globalBacked(x.X, depth+1, seen)
+	case *ssa.Phi:
+		for _, e := range x.Edges {
+			if g := globalBacked(e, depth+1, seen); g != nil {
+				return g
+			}
+		}
+	case *ssa.Alloc:
+		if x.Referrers() != nil {
+			for _, r := range *x.Referrers() {
+				if st, ok := r.(*ssa.Store); ok && st.Addr == ssa.Value(x) {
+					if g := globalBacked(st.Val, depth+1, seen); g != nil {
+						return g
+					}
+				}
+			}
+		}
+	}
+	return nil
+}
+
+// checkNoSharedBacking: no library function hands out a value that shares slice or map storage with a package-level
+// variable: two callers (two sandboxes being configured concurrently) would append into / update the same storage.
+func checkNoSharedBacking(c *Check, rule string) {
+	p := c.P
+	n, bad, badPos := 0, "", ""
+	for _, fn := range p.AllFuncs() {
+		if !inModule(fn) || fn.Pkg == nil || strings.HasSuffix(fn.Pkg.Pkg.Path(), "_test") || strings.Contains(fn.Pkg.Pkg.Path(), "/cmd/") || fn.Synthetic != "" {
+			continue
+		}
+		for _, b := range fn.Blocks {
+			ret, ok := b.Instrs[len(b.Instrs)-1].(*ssa.Return)
+			if !ok {
+				continue
+			}
+			for i := range ret.Results {
+				v := retVal(ret, i)
+				if v == nil || !hasRefInside(v.Type(), 0) {
+					continue
+				}
+				n++
+				if g := globalBacked(v, 0, map[ssa.Value]bool{}); g != nil && bad == "" {
+					bad = fmt.Sprintf("%s returns a value backed by the package variable %s", funcName(fn), g.Name())
+					badPos = p.Pos(ret.Pos())
+				}
+			}
+		}
+	}
+	if badPos == "" {
+		badPos = "-"
+	}
+	c.Cond(bad == "" && n > 0, rule, "module:returns-share-no-package-storage", badPos, fmt.Sprintf("none of %d slice/map-carrying results is backed by a package variable", n),
+		bad+": every caller receives the same backing storage, so what one sandbox's set-up appends or stores shows up in another's")
+	c.Expect(rule, 1)
 }
